@@ -57,6 +57,7 @@ def run(ck):
         "interleaving of the writer thread's output with the main thread's output",
     ]
     ck.run_rule(i1_dispatch)
+    ck.run_rule(i1b_dispatch_unconditional)
     ck.run_rule(i2_replies)
     ck.run_rule(i3_isready_nonblocking)
     ck.run_rule(i4_single_live_search)
@@ -1265,3 +1266,48 @@ def i11_time_limit(ck):
     # the timer polls: its loop sleeps a bounded constant time
     sl = [t for bb, t in live_calls(c) if callee_name(t).endswith("thread::functions::sleep") or callee_name(t).endswith("thread::sleep")]
     ck.req(bool(sl) and all(cfg.in_cycle(c, bb) for bb, t in live_calls(c) if t in sl), "I11.polls", "timer", c.where(), "the timer does not poll in a loop")
+
+
+def i1b_dispatch_unconditional(ck):
+    """Every required command word reaches its arm whatever the session's state: between reading a line and comparing its first token
+    with the word, only the line / token extraction and the failed comparisons with the other words may stand.  A guard arm placed in
+    front (`while searching, only accept ..`) silently swallows commands - a `ucinewgame` sent during a search would never clear anything."""
+    ex, sh, arms = _shape(ck, "I1")
+    if sh is None:
+        return
+    prog = ck.prog
+    tb = sh.tb
+    n = 0
+    for w in REQUIRED:
+        if w not in sh.arms:
+            continue
+        bb = sh.arms[w][0][0]      # block of the comparison with the word
+        n += 1
+        extra = []
+        for c, tk in guards_of(prog, ex, bb, tb):
+            txt = show(c)
+            if c[0] == "discr":
+                continue           # Option / Result discriminants of the line iterator, split_first, read results
+            if c[0] == "call" and (c[1].endswith("PartialEq for str>::eq") or c[1].endswith("::eq")) and any(x[0] == "const" for x in walk(c)) and tk is False:
+                continue           # an earlier word did not match
+            if c[0] == "bin" and c[1] in ("Eq", "Ne") and any(x[0] == "call" and x[1].endswith("::len") for x in walk(c)):
+                continue           # slice-pattern length tests of the token list
+            extra.append((txt[:80], tk))
+        ck.req(not extra, "I1.unconditional", w, ex.where(ex.term(bb).get("line")),
+               "the arm of `%s` is reached only under %s: in the other case the command is swallowed" % (w, extra[:2]))
+        # path form (a guard arm in front whose condition is a short-circuit leaves no dominating guard): once the first token is
+        # extracted, every way back to the next line passes the comparison with this word, except through an earlier word's own arm
+        starts = []
+        for b2, blk in enumerate(ex.blocks):
+            t2 = blk["term"]
+            if t2["k"] == "switch" and not blk.get("cleanup"):
+                c2 = tb.operand(t2["discr"])
+                if c2[0] == "discr" and any(x[0] == "call" and x[1].endswith("::split_first") for x in walk(c2[1])) and b2 in cfg.dominators(ex).get(bb, ()):
+                    starts += [x[1] for x in t2["cases"] if x[0] == 1] or [t2["otherwise"]]
+        other_true = [(ex.term(e[0])["target"], e[1]) for w2, ents in sh.arms.items() if w2 != w for e in ents]
+        if starts:
+            ok_path = cfg.must_pass(ex, starts, [sh.loop_head], [bb], through_edges=other_true)
+            ck.req(ok_path, "I1.unconditional", w + " (paths)", ex.where(ex.term(bb).get("line")),
+                   "after the first token has been split off, the next line can be read without this token ever being compared with `%s` (and without another "
+                   "command word having matched): a guard in front of the dispatch swallows the command in some session states" % w)
+    ck.floor("I1", n, 7, "command words whose dispatch is checked for unconditional reach")
